@@ -93,3 +93,9 @@ def strategy():
 def campaign(col, tier, seed, shard, nshards):
     n = 2400 if tier == "quick" else 128000
     hyp_campaign(col, strategy(), run_case, max(n // nshards, 100), seed * 100 + shard)
+    if tier == "thorough":
+        import sys as _sys
+
+        from ..common import fuzz_stage
+
+        fuzz_stage(col, _sys.modules[__name__], 30000 // nshards, seed * 100 + shard)
